@@ -530,8 +530,10 @@ class Interp:
                     if len(mv) == 1 and len(other) == 1:
                         x = self.ev(other[0], env)
                         return ListV(f'(LAnyBit {q(it.id)} {self.num_src(x, node)})')
-        # [e for e in events if e not in X.ktraces]  (the lookups other than the first one)
-        if ast.unparse(node).startswith('[e for e in events if e not in ') and ast.unparse(node).endswith('.ktraces]'):
+        # [e for e in events if all(e is not k for k in X.ktraces)]  (the records other than those of the first lookup, by
+        # identity: the form `e not in X.ktraces` compares records by value and drops a record of the second lookup that equals
+        # one of the first -- same tick, same last chunk -- so it is NOT the second lookup and is rejected here)
+        if re.fullmatch(r'\[e for e in events if all\(\(?e is not k for k in \w+\.ktraces\)?\)\]', ast.unparse(node)):
             return ('events-minus-first-vnode',)
         raise U('listcomp', ast.unparse(node)[:80], node)
 
